@@ -35,7 +35,7 @@ fn gen_ip(r: &mut SplitMix) -> IpAddr {
 
 fn main() {
     let args = Args::parse();
-    std::panic::set_hook(Box::new(|_| {}));
+    vcore::quiet_panics();
     let mut report = Report::new(
         "addr_canon",
         "(1) CanonicalSocketAddr::new / get_ipv6_mapped round trip and ws IpVersion::canonical_from_ip vs std's to_ipv4_mapped on boundary forms (::ffff:a.b.c.d, ::a.b.c.d, ::ffff:0:a.b.c.d, 64:ff9b::/96, ::1, ::, near-miss prefixes, scoped addresses) and random addresses; (2) http parse_request in reverse-proxy mode on generated header blocks (several occurrences, comma lists, optional whitespace, other headers between, up to 16 headers) vs the reference rule; \
